@@ -311,6 +311,8 @@ pub struct Bad;
 impl Tr for Bad { type A = NoInfo; type S = NoInfo; }
 // a marker the declared `where` clause can require: implemented for the instantiation types only (not blanket), so the
 // derived impl is well-formed only if it repeats the declared predicate
+// an unrelated trait that happens to be NAMED like scale-info's (a bound on it says nothing about scale_info::TypeInfo)
+pub mod schema { pub trait TypeInfo {} impl<X: ?Sized> TypeInfo for X {} }
 pub trait Mk {}
 impl Mk for u8 {} impl Mk for u32 {} impl Mk for bool {} impl Mk for String {} impl Mk for NoInfo {} impl Mk for Good {} impl Mk for Bad {}
 impl<X> Mk for Vec<X> {} impl<X> Mk for Option<X> {} impl<X> Mk for Wrapper<X> {}
@@ -487,8 +489,17 @@ def gen_gen(r, force=None):
             preds.append(f'{names[k]}: Mk')
     if r.random() < 0.1:
         preds.append(f'{names[0]}: Sized')
+    foreign = [r.random() < 0.15 for _ in names]
+    if force is not None and force.get('foreign'):
+        foreign = [True, False]
+        # the parameter is then used only inside other types (no member of the bare parameter type)
+        fields = [[T('vec', P(0)) if not skipped[0] else T('ph', P(0)), False, False]] + fields[1:]
+
+    def inline(k):
+        bs = (['Tr'] if (with_assoc[k] and not tr_in_where[k]) else []) + (['schema::TypeInfo'] if foreign[k] else [])
+        return (': ' + ' + '.join(bs)) if bs else ''
     gens = (["'a"] if lifetime else []) + (['const N: usize'] if (const and const_first) else []) + \
-        [nm + (': Tr' if (with_assoc[k] and not tr_in_where[k]) else '') + (' = u8' if (default_u and k == 1) else '') for k, nm in enumerate(names)] + \
+        [nm + inline(k) + (' = u8' if (default_u and k == 1) else '') for k, nm in enumerate(names)] + \
         (['const N: usize'] if (const and not const_first) else [])
     attrs = []
     if any(skipped):
@@ -547,7 +558,7 @@ def main():
         for lifetime in (False, True):
             for const in ('none', 'last', 'first'):
                 for skipped in ([False, False], [True, False], [False, True], [True, True]):
-                    src, p = gen_gen(random.Random(7000 + kx), force=dict(lifetime=lifetime, const=const, skipped=skipped))
+                    src, p = gen_gen(random.Random(7000 + kx), force=dict(lifetime=lifetime, const=const, skipped=skipped, foreign=(kx % 4 == 1)))
                     open(os.path.join(bind, f'xg{kx}.rs'), 'w').write(src)
                     lines.append(f'neg xg{kx} gen {p}')
                     kx += 1
